@@ -50,6 +50,7 @@ type Report struct {
 	notes      []string
 	triage     map[string]string
 	triageHit  map[string]bool
+	altKeys    map[string]int
 }
 
 func New(prop, tier, verifDir string) *Report {
@@ -93,6 +94,39 @@ func (r *Report) Check(ruleID, fn, construct, pos string, ok bool, detail string
 	r.obligs = append(r.obligs, Oblig{Rule: ruleID, Key: key, Pos: pos, OK: ok, Detail: detail})
 }
 
+// CheckAlt is Check with a second, coarser name for the site, used only to look an UNDECIDED site up in the triage
+// table: an entry written as rule|fn|~coarse covers the n-th undecided site of that coarse shape in the function
+// (n counted over undecided sites only), so the entry survives rewrites that change how the same object is reached
+// (range loop vs index loop, a local alias) while a further undecided site of the same shape is still reported.
+func (r *Report) CheckAlt(ruleID, fn, construct, coarse, pos string, ok bool, detail string) {
+	if !ok && coarse != "" {
+		full := ruleID + "|" + fn + "|" + construct
+		n := r.keys[full] + 1
+		k := full
+		if n > 1 {
+			k = fmt.Sprintf("%s#%d", full, n)
+		}
+		if _, listed := r.triage[k]; !listed {
+			alt := ruleID + "|" + fn + "|~" + coarse
+			if r.altKeys == nil {
+				r.altKeys = map[string]int{}
+			}
+			r.altKeys[alt]++
+			if m := r.altKeys[alt]; m > 1 {
+				alt = fmt.Sprintf("%s#%d", alt, m)
+			}
+			if why, listedAlt := r.triage[alt]; listedAlt {
+				r.triageHit[alt] = true
+				r.counts["triaged_sites"]++
+				r.lists["triaged"] = append(r.lists["triaged"], alt+" — "+why)
+				r.Check(ruleID, fn, construct, pos, true, "undecided by the domain ("+detail+"); triaged — "+why)
+				return
+			}
+		}
+	}
+	r.Check(ruleID, fn, construct, pos, ok, detail)
+}
+
 // LoadTriage reads a frozen triage table: lines `key :: category :: reason`.  A failing obligation whose key is
 // listed is accepted with the recorded reason (it is a site the abstract domain cannot decide, confirmed by
 // reading); an entry that matches no obligation is reported as stale in the evidence.
@@ -107,6 +141,7 @@ func (r *Report) LoadTriage(name string) {
 	if r.triage == nil {
 		r.triage = map[string]string{}
 		r.triageHit = map[string]bool{}
+		r.altKeys = map[string]int{}
 	}
 	sc := bufio.NewScanner(f)
 	sc.Buffer(make([]byte, 1<<20), 1<<20)
